@@ -13,8 +13,8 @@ import (
 )
 
 func (e *Env) begin(format string, a ...interface{}) bool {
-	if e.Failed() {
-		return false
+	if e.Failed() || e.NoRootsStop {
+		return false // (NoRootsStop: the file legitimately could not be opened; the case ends there)
 	}
 	e.Step++
 	e.CurOp = fmt.Sprintf(format, a...)
@@ -554,7 +554,9 @@ func (e *Env) Flush() {
 		e.Failf("flush/unexpected-error", "Flush: %v", err)
 		return
 	}
-	e.M.Flush(e.F.Size())
+	// the durable end is the end of the root record just written (the file may be
+	// longer when unreferenced bytes of an earlier Collection.Write() follow it)
+	e.M.Flush(e.F.DurableEnd())
 	e.lastFlushStep = e.Step
 	if e.Cfg.Decode {
 		e.DecodeCheck("after-flush")
@@ -1007,6 +1009,7 @@ func (e *Env) CopyTo(snap int, flushEvery int) (dst *vfile.File) {
 		e.Failf("copyto/dst-file-rule", "destination file: %s", dst.Violations[0])
 		return
 	}
+	e.LastCopyDst, e.LastCopyFlushEvery = dst, flushEvery
 	return dst
 }
 
